@@ -592,6 +592,93 @@ theorem C11_exact_schema_partial (d : Dict) (rank : Nat → Nat) (h : Ranked d r
         | true => exact absurd ⟨h1, h2⟩ hn
   exact congrArg (fun l => Outcome.ok (l.map (·.id))) (List.filter_congr hfil)
 
+/-- the instance is internally mapped (one entity) -/
+def simpleB (y : SInst) : Bool :=
+  match y.ents with
+  | [_] => true
+  | _ => false
+
+theorem simpleB_iff (y : SInst) : simpleB y = true ↔ ∃ k, y.ents = [k] := by
+  unfold simpleB
+  constructor
+  · intro h
+    split at h
+    · rename_i k hk; exact ⟨k, hk⟩
+    · cases h
+  · rintro ⟨k, hk⟩; rw [hk]
+
+theorem complex_not_found (d : Dict) (y : SInst) (hy : simpleB y = false) (over : Nat) :
+    (mkInst d (encode d y)).types.contains over = false := by
+  have hkw : (encode d y).kw = none := by
+    unfold encode
+    split
+    · rename_i k hk
+      have : simpleB y = true := (simpleB_iff y).mpr ⟨k, hk⟩
+      rw [hy] at this; cases this
+    · rfl
+  unfold mkInst
+  rw [hkw]
+  rfl
+
+open Classical in
+/-- **the same with externally mapped instances in the population** (`_partial`): nothing is asked of the instances' mapping any more —
+    the slot holds exactly the **internally mapped** referrers, in population order, each once.  An externally mapped instance that
+    refers to `x` through the inverted attribute is a referrer by the specification (`Referrer` looks at every entity of `y.ents`) and
+    is not in the slot: this is, as a theorem, precisely what the kept finding `complex-referrer` says is lost, and nothing else is
+    (the loader-level reason is `C10_complex_instance_never_candidate`).  Still excluded: referrers whose entity redeclares the
+    inverted attribute (`hnr`), single-valued inverses. -/
+theorem C11_exact_schema_with_complex_partial (d : Dict) (rank : Nat → Nat) (h : Ranked d rank) (hd : AttrNamesUnique d)
+    (hu : InheritUnique d) (spop : List SInst)
+    (x k : Nat) (hx : ∃ sx ∈ spop, sx.id = x ∧ sx.ents = [k])
+    (iv : InvDecl) (hs : iv ∈ slots d k) (ha : iv.aggr = true)
+    (hwf : ∃ e, SupStar d iv.over e ∧ Declares d e iv.attrName)
+    (hnr : ∀ y ∈ spop, ∀ k', y.ents = [k'] → (redeclOf d k').contains iv.attrName = false) :
+    resolveD d (spop.map (encode d)) x k iv =
+      .ok ((spop.filter (fun y => simpleB y && decide (Referrer d x iv y))).map (·.id)) := by
+  -- the descriptor `InitIAttrs` links the inverse attribute to
+  have hsome := (C11_attr_owner d rank h iv.over iv.attrName).2 hwf
+  obtain ⟨o, ho⟩ : ∃ o, attrOwner d iv.over iv.attrName = some o := by
+    cases hq : attrOwner d iv.over iv.attrName with
+    | none => rw [hq] at hsome; cases hsome
+    | some o => exact ⟨o, rfl⟩
+  have hid : ∀ p : SInst, ((mkInst d ∘ encode d) p).id = p.id := fun p => by
+    show (mkInst d (encode d p)).id = p.id
+    rw [mkInst_id, encode_id]
+  -- the internally mapped part of the population
+  have hx' : ∃ sx ∈ spop.filter simpleB, sx.id = x ∧ sx.ents = [k] := by
+    obtain ⟨sx, hm, h1, h2⟩ := hx
+    exact ⟨sx, List.mem_filter.mpr ⟨hm, (simpleB_iff sx).mpr ⟨k, h2⟩⟩, h1, h2⟩
+  have hmain := C11_exact_schema_partial d rank h hd hu (spop.filter simpleB)
+    (fun y hy => (simpleB_iff y).mp (List.mem_filter.mp hy).2) x k hx' iv hs ha hwf
+    (fun y hy => hnr y (List.mem_filter.mp hy).1)
+  rw [C11_exact_dict d hd _ x k iv hs o ho ha, List.map_map, specRefs_map _ (mkInst d ∘ encode d) (·.id) x (mkIA iv o) hid] at hmain
+  rw [C11_exact_dict d hd (spop.map (encode d)) x k iv hs o ho ha, List.map_map,
+    specRefs_map spop (mkInst d ∘ encode d) (·.id) x (mkIA iv o) hid]
+  -- an externally mapped instance passes neither filter
+  have hq : ∀ y : SInst, ((mkInst d ∘ encode d) y).types.contains (mkIA iv o).over = true → simpleB y = true := by
+    intro y hy
+    cases hb : simpleB y with
+    | true => rfl
+    | false =>
+      have := complex_not_found d y hb (mkIA iv o).over
+      rw [show ((mkInst d ∘ encode d) y) = mkInst d (encode d y) from rfl, this] at hy
+      cases hy
+  have hsame : spop.filter (fun p => ((mkInst d ∘ encode d) p).types.contains (mkIA iv o).over &&
+        ((mkInst d ∘ encode d) p).attrs.any (fun a => a.owner == (mkIA iv o).attrOwner && a.name == (mkIA iv o).attrName && a.refs.contains x)) =
+      (spop.filter simpleB).filter (fun p => ((mkInst d ∘ encode d) p).types.contains (mkIA iv o).over &&
+        ((mkInst d ∘ encode d) p).attrs.any (fun a => a.owner == (mkIA iv o).attrOwner && a.name == (mkIA iv o).attrName && a.refs.contains x)) := by
+    rw [List.filter_filter]
+    apply List.filter_congr
+    intro y _
+    cases h1 : ((mkInst d ∘ encode d) y).types.contains (mkIA iv o).over with
+    | false => simp
+    | true => simp [hq y h1]
+  rw [hsame, hmain, List.filter_filter]
+  congr 2
+  apply List.filter_congr
+  intro y _
+  rw [Bool.and_comm]
+
 open Classical in
 /-- … none twice: distinct instance names give a duplicate-free result -/
 theorem C11_exact_schema_nodup (d : Dict) (x : Nat) (iv : InvDecl) (spop : List SInst) (hid : (spop.map (·.id)).Nodup) :
